@@ -366,16 +366,29 @@ fn create_network(
         &vehicle_type_lookup,
     );
 
-    let number_of_service_trips: VehicleCount = service_trips
-        .values()
-        .map(|trips| trips.len() as VehicleCount)
-        .sum();
+    // upper bound on the number of vehicles of a schedule: every service trip is served by as many
+    // vehicles as its demand requires (a single vehicle per trip is not enough for coupled formations)
+    let vehicle_upper_limit: VehicleCount = service_trips
+        .iter()
+        .map(|(vehicle_type_idx, trips)| {
+            let vehicle_type = vehicle_types.get(*vehicle_type_idx).unwrap();
+            trips
+                .iter()
+                .map(|trip| {
+                    trip.passengers()
+                        .div_ceil(vehicle_type.capacity())
+                        .max(trip.seated().div_ceil(vehicle_type.seats()))
+                        .max(1)
+                })
+                .fold(0, VehicleCount::saturating_add)
+        })
+        .fold(0, VehicleCount::saturating_add);
     let depots = create_depots(
         json_input,
         &locations,
         &location_lookup,
         &vehicle_type_lookup,
-        number_of_service_trips,
+        vehicle_upper_limit,
     );
 
     let maintenance_slots = create_maintenance_slots(json_input, &locations, &location_lookup);
